@@ -22,6 +22,10 @@ def flit(h):
     return "(%s)%%float" % s
 
 
+def flit_or_nan(h):
+    return "nan" if h in ("nan", "N", "-") else flit(h)
+
+
 def tf9(hs):
     return "(@mkTf NumF %s)" % " ".join(flit(h) for h in hs)
 
@@ -149,8 +153,9 @@ def run_parse(prop, texts, impl_lines, limit):
     return dict(cases=len(idx), agree=len(idx) - len(problems), problems=problems[:5])
 
 
-def opt_cases(shard, limit, max_calls=1200):
-    """zero-temperature cases (exp is then only applied to infinities / NaN, pow not at all)"""
+def opt_cases(shard, limit, max_calls=1200, libm=None):
+    """runs short enough to replay inside Coq; without recorded libm values only zero-temperature cases (exp is then
+    only applied to infinities / NaN, pow not at all)"""
     out, cur = [], None
     zero = "0000000000000000"
     for l in open(shard):
@@ -177,7 +182,8 @@ def opt_cases(shard, limit, max_calls=1200):
         elif k == "E":
             b = cur["B"]
             # kt_start = +0: build never calls pow (its branch needs 0 < kt_start) and exp only sees infinities / NaN
-            if (b and b[1] == zero and cur["O"] == "ok" and cur["F"] is not None
+            have_libm = libm is not None and cur["spec"] in libm and len(libm[cur["spec"]]) <= 1500
+            if (b and (b[1] == zero or have_libm) and cur["O"] == "ok" and cur["F"] is not None
                     and 2 <= len(cur["C"]) <= max_calls and "reuse=1" not in cur["spec"]):
                 out.append(cur)
                 if len(out) >= limit:
@@ -186,8 +192,8 @@ def opt_cases(shard, limit, max_calls=1200):
     return out
 
 
-def run_opt(prop, shard, limit, ocaml_verdicts):
-    cases = opt_cases(shard, limit)
+def run_opt(prop, shard, limit, ocaml_verdicts, libm=None):
+    cases = opt_cases(shard, limit, libm=libm)
     if not cases:
         return dict(cases=0, agree=0, problems=[])
     head = HEAD.replace("model.Parse model.Geom", "model.Parse model.Geom model.Optimiser")
@@ -203,7 +209,10 @@ def run_opt(prop, shard, limit, ocaml_verdicts):
         draws = "[" + "; ".join("@mkDraw NumF %s%%nat %s %s" % (d[0], flit(d[1]), flit(d[2])) for d in c["D"][:nd]) + "]"
         rec = "[" + "; ".join("(%s, [%s])" % (fo(sc), "; ".join(flit(h) for h in vec)) for sc, vec in c["C"]) + "]"
         fin = "[" + "; ".join(flit(h) for h in c["F"]) + "]"
-        body.append("Definition ok_%d := opt_case_ok %s %s %s %s %s %s.\n" % (i, builder, ps, hs, draws, rec, fin))
+        tab = (libm or {}).get(c["spec"], [])
+        etab = "[" + "; ".join("(%s, %s)" % (flit_or_nan(t[1]), flit_or_nan(t[2])) for t in tab if t[0] == "e") + "]"
+        ptab = "[" + "; ".join("(%s, %s, %s)" % (flit_or_nan(t[1]), flit_or_nan(t[2]), flit_or_nan(t[3])) for t in tab if t[0] == "p") + "]"
+        body.append("Definition ok_%d := opt_case_ok_tab %s %s %s %s %s %s %s %s.\n" % (i, etab, ptab, builder, ps, hs, draws, rec, fin))
     body.append("Eval vm_compute in [%s].\n" % "; ".join("ok_%d" % i for i in range(len(cases))))
     rc, out = coqc_eval(prop, "coqeval_opt", "".join(body))
     if rc != 0:
